@@ -119,6 +119,7 @@ pub(crate) fn run() -> Result<(), Error> {
 
 struct LogState {
     already: HashSet<String>,
+    shown: HashSet<i64>,
     depth: Vec<String>,
     total_lines: i64,
     status: String,
@@ -129,6 +130,7 @@ impl LogState {
     fn new() -> LogState {
         LogState {
             already: HashSet::new(),
+            shown: HashSet::new(),
             depth: Vec::new(),
             total_lines: 0,
             status: String::new(),
@@ -152,10 +154,6 @@ impl LogState {
         if !self.already.insert(t.to_string()) {
             return Ok(0);
         }
-        if t.as_str() != "-" {
-            self.depth.push(t.to_string());
-        }
-        self.fix_depth();
         let mydir = t.parent().unwrap_or_default();
         let stdin = io::stdin();
         let (mut f, mut info): (Option<Box<dyn BufRead>>, Option<(i64, Lock, PathBuf)>) =
@@ -177,11 +175,19 @@ impl LogState {
                         Err(e) => return Err(e.into()),
                     }
                 };
+                if !self.shown.insert(fid) {
+                    // Another spelling of a target whose log has been shown.
+                    return Ok(0);
+                }
                 let logname = redo::logname(ps.env(), fid);
                 let mut loglock = ps.new_lock(fid + redo::LOG_LOCK_MAGIC);
                 loglock.wait_lock(LockType::Shared)?;
                 (None, Some((fid, loglock, logname)))
             };
+        if t.as_str() != "-" {
+            self.depth.push(t.to_string());
+        }
+        self.fix_depth();
         let mut delay = Duration::from_millis(10);
         let mut was_locked = is_locked(ps, info.as_ref().map(|&(fid, ..)| fid))?;
         let mut line_head = String::new();
